@@ -254,6 +254,12 @@ def document(depth: int = 3, avoid=frozenset(), zones: bool = True, comments: bo
     top = node(depth - 1, avoid, zones, comments, 4, empty_containers, False)
     body = st.lists(top, max_size=max_nodes)
     def post(d):
+        if "sections" in avoid:
+            d = sections_to_blocks(d)
+        if "dup_keys" in avoid:
+            d = unique_sibling_keys(d)
+        if "holo" in avoid:
+            d = replace_holo(d)
         d = drop_zone_after_empty_block(d)
         return strip_comments_after_empty(d) if "comment_after_empty" in avoid else d
     return st.builds(
@@ -410,6 +416,61 @@ def strip_comments_after_empty(doc):
     body = rec(doc["body"])
     trailing = take(doc.get("trailing", []))
     return {**doc, "body": body, "trailing": trailing}
+
+
+def sections_to_blocks(doc):
+    def rec(nodes):
+        out = []
+        for n in nodes:
+            if n["t"] == "section":
+                n = {"t": "block", "key": "S" + re.sub(r"\W", "", n["id"]) + "_" + n["name"], "target": None, "kids": rec(n["kids"]), "lead": n["lead"], "tail": n["tail"]}
+            elif n["t"] == "block":
+                n = {**n, "kids": rec(n["kids"])}
+            out.append(n)
+        return out
+    return {**doc, "body": rec(doc["body"])}
+
+
+def unique_sibling_keys(doc):
+    def rec(nodes):
+        used: set = set()
+        out = []
+        for n in nodes:
+            if n["t"] in ("assign", "block"):
+                k = n["key"]
+                j = 1
+                while k in used:
+                    j += 1
+                    k = f"{n['key']}_{j}"
+                used.add(k)
+                if k != n["key"]:
+                    n = {**n, "key": k}
+            if n["t"] in ("block", "section"):
+                n = {**n, "kids": rec(n["kids"])}
+            out.append(n)
+        return out
+    return {**doc, "body": rec(doc["body"])}
+
+
+def replace_holo(doc):
+    def fix(V):
+        if V["v"] == "holo":
+            return {"v": "str", "s": "pattern", "cls": "word"}
+        if V["v"] == "list":
+            return {**V, "items": [({**i, "value": fix(i["value"])} if i["v"] == "pair" else fix(i)) for i in V["items"]]}
+        return V
+
+    def rec(nodes):
+        out = []
+        for n in nodes:
+            if n["t"] == "assign":
+                n = {**n, "value": fix(n["value"])}
+            elif n["t"] in ("block", "section"):
+                n = {**n, "kids": rec(n["kids"])}
+            out.append(n)
+        return out
+    meta = [[k, (v if "nested" in v else fix(v))] for k, v in doc["meta"]]
+    return {**doc, "meta": meta, "body": rec(doc["body"])}
 
 
 def drop_zone_after_empty_block(doc):
